@@ -2,6 +2,9 @@
  * Finite route: the only loops run over the 33-entry mask table / 4 limbs (fully unwound). */
 #include "contracts/net_utils.h"
 #include "src/net/utils.c"
+#ifdef VF_REPLAY	/* native replay links the callees of the out-of-scope functions */
+#include "src/net/socket_address.c"
+#endif
 
 void harness(void) {
 	VF_NONDET(size_t, len);
